@@ -36,12 +36,78 @@ C05(w) ==
   ELSE IF ~w.ret.res THEN <<"C05.ReturnTrue", "delivered but write() returned False">>
   ELSE OK
 
+\* ---- ground truth helpers
+RxBy(pkt, nm) == \E k \in Idx(pkt.rx) : pkt.rx[k][1] = nm /\ pkt.rx[k][3] = "new"
+FromNode(pkts, nm) == SelectSeq(pkts, LAMBDA p : p.src = nm)
+Loads(pkts) == {pkts[i].load : i \in Idx(pkts)}
+RECURSIVE LastRouter(_, _)
+LastRouter(s, d) == IF NextHop(s, d) = d THEN s ELSE LastRouter(NextHop(s, d), d)     \* node that delivers to d
+Min0(S) == IF S = {} THEN -1 ELSE CHOOSE x \in S : \A y \in S : x <= y
+
+\* ---- C13: NETWORK_ACK for single-frame unicast writes
+C13(w) ==
+  LET c == w.call  h == Hops(c.src, c.to)  need == IsAckType(c.type) /\ h >= 2
+      acks == NetAcks(w.pkts)  users == UserFrames(w.pkts)
+      origin == c.n
+      tAccept == Min0({users[i].t : i \in {j \in Idx(users) : users[j].src = origin /\ users[j].acked}})
+      delivered == \E i \in Idx(users) : HdrOf(users[i]).to = c.to /\ NodeAt(c.to) # {} /\ RxBy(users[i], NameAt(c.to))
+      arrivals == {acks[i].t : i \in {j \in Idx(acks) : RxBy(acks[j], origin)}}
+      rt == c.route_timeout * 1000  tt == c.tx_timeout * 1000 IN
+  IF w.ret.exc # "none" THEN <<"C13.Bounded", "write() raised " \o w.ret.exc>>
+  ELSE IF ~need /\ acks # <<>> THEN <<"C13.NeverOtherwise", "NETWORK_ACK on air for a frame that must not cause one">>
+  ELSE IF need /\ ~delivered /\ acks # <<>> THEN <<"C13.ExactlyOneAck", "NETWORK_ACK although the frame was not delivered to its destination">>
+  ELSE IF need /\ delivered /\ Cardinality(Loads(FromNode(acks, NameAt(LastRouter(c.src, c.to))))) # 1
+       THEN <<"C13.ExactlyOneAck", "the delivering node generated " \o ToString(Cardinality(Loads(FromNode(acks, NameAt(LastRouter(c.src, c.to)))))) \o " NETWORK_ACKs">>
+  ELSE IF need /\ \E i \in Idx(acks) : HdrOf(acks[i]).to # c.src THEN <<"C13.ExactlyOneAck", "NETWORK_ACK not addressed to the origin">>
+  ELSE IF need /\ w.ret.res /\ ~(\E t \in arrivals : t <= w.ret.t) THEN <<"C13.TrueOnlyIfArrived", "True although no NETWORK_ACK reached the origin">>
+  ELSE IF need /\ ~w.ret.res /\ tAccept >= 0 /\ (\E t \in arrivals : t >= tAccept /\ t <= tAccept + rt - 3000)
+       THEN <<"C13.TrueOnlyIfArrived", "False although a NETWORK_ACK reached the origin in time">>
+  ELSE IF ~need /\ w.ret.res # (tAccept >= 0) THEN <<"C13.TrueOnlyIfArrived", "result differs from first-hop acceptance for a frame that needs no NETWORK_ACK">>
+  ELSE IF ~need /\ tAccept >= 0 /\ w.ret.t - tAccept > 6000 THEN <<"C13.WaitOnlyIfNeeded", "blocked after the first hop had accepted a frame that needs no NETWORK_ACK">>
+  ELSE IF need /\ ~w.ret.res /\ tAccept >= 0 /\ w.ret.t - tAccept < rt - 3000 THEN <<"C13.WaitOnlyIfNeeded", "gave up before route_timeout">>
+  ELSE IF w.ret.dt > 2 * tt + rt + 60000 THEN <<"C13.Bounded", ToString(w.ret.dt) \o " us">>
+  ELSE OK
+
+\* ---- C14: multicast
+LvlOf(i) == T.nodes[i].lvl
+Step14(E, sender) == E \cup {m \in Idx(T.nodes) : T.nodes[m].allow_mc /\      \* (the sender may hear its own frame back through relays)
+                                 \E n \in E : T.nodes[n].relay /\ LvlOf(n) \in 1..3 /\ LvlOf(m) = LvlOf(n) + 1}
+Heard(mc, nm) == Cardinality({i \in Idx(mc) : RxBy(mc[i], nm)})
+C14(w) ==
+  LET c == w.call  sender == NodeNamed(c.n)
+      L == IF c.level < 0 THEN c.lvl ELSE (IF c.level > 4 THEN 4 ELSE c.level)
+      E0 == {m \in Idx(T.nodes) : m # sender /\ T.nodes[m].allow_mc /\ LvlOf(m) = L}
+      E == Step14(Step14(Step14(Step14(E0, sender), sender), sender), sender)
+      Got(m) == Cardinality({i \in Idx(w.deqs) : w.deqs[i].n = T.nodes[m].name /\ w.deqs[i].type = c.type /\ w.deqs[i].msg = c.msg
+                                                 /\ w.deqs[i]["from"] = c.src})
+      mc == SelectSeq(w.pkts, LAMBDA p : IsFrame(p) /\ HdrOf(p).to = 64)
+      nfr == NFrags(Len(c.msg))
+      Relays == {n \in E \ {sender} : T.nodes[n].relay /\ LvlOf(n) \in 1..3} IN
+  IF w.ret.exc # "none" THEN <<"C14.ExactlyLevel", "multicast() raised " \o w.ret.exc>>
+  ELSE IF \E i \in Idx(w.pkts) : w.pkts[i].want_ack THEN <<"C14.NoAckRequested", "a packet of the multicast requested a radio acknowledgement">>
+  ELSE IF \E i \in Idx(w.pkts) : w.pkts[i].has_ack THEN <<"C14.NoAckSent", "a receiver acknowledged a multicast packet">>
+  ELSE IF \E m \in E0 : Got(m) = 0 THEN <<"C14.ExactlyLevel", "node " \o ToString(T.nodes[CHOOSE m \in E0 : Got(m) = 0].addr) \o " of the addressed level did not receive the multicast">>
+  ELSE IF \E m \in E : Got(m) > 1 THEN <<"C14.ExactlyLevel", "multicast delivered more than once to one node">>
+  ELSE IF \E i \in Idx(w.deqs) : NodeNamed(w.deqs[i].n) \notin E \cup {sender} THEN
+       <<"C14.ExactlyLevel", "node " \o ToString(T.nodes[NodeNamed(w.deqs[CHOOSE i \in Idx(w.deqs) : NodeNamed(w.deqs[i].n) \notin E \cup {sender}].n)].addr) \o " of another level received the multicast">>
+  ELSE IF ~T.nodes[sender].relay /\ \E i \in Idx(mc) : mc[i].src = c.n /\ mc[i].addr # PhysAddr(LevelAddr(L), 0, T.prefix, T.suffix, TRUE) /\ L # 0
+       THEN <<"C14.ExactlyLevel", "sender transmitted to another address than the level's">>
+  ELSE IF \E n \in Relays : Cardinality(Loads(FromNode(mc, T.nodes[n].name))) # Heard(mc, T.nodes[n].name)
+       THEN <<"C14.RelayOnce", "a relaying node did not re-broadcast each received multicast frame exactly once">>
+  ELSE IF \E n \in Relays : \E i \in Idx(mc) : mc[i].src = T.nodes[n].name /\ mc[i].addr # PhysAddr(LevelAddr(LvlOf(n) + 1), 0, T.prefix, T.suffix, TRUE)
+       THEN <<"C14.RelayOnce", "relayed to another level than the next">>
+  ELSE IF \E m \in Idx(T.nodes) : ~T.nodes[m].relay /\ m # sender /\ FromNode(mc, T.nodes[m].name) # <<>>
+       THEN <<"C14.RelayOnce", "a node with multicast_relay off re-broadcast the frame">>
+  ELSE OK
+
 Crash(w) == IF Len(w.bad) > 0 THEN <<"C15.NoRaise", w.bad[1].k \o " on " \o w.bad[1].n \o ": " \o w.bad[1].what>> ELSE OK
 
 Families(w) == {w.call.chk[i] : i \in Idx(w.call.chk)}
 Verdicts(w) == <<Crash(w)>>
                \o (IF "C07" \in Families(w) THEN <<C07(w)>> ELSE <<>>)
                \o (IF "C05" \in Families(w) THEN <<C05(w)>> ELSE <<>>)
+               \o (IF "C13" \in Families(w) THEN <<C13(w)>> ELSE <<>>)
+               \o (IF "C14" \in Families(w) THEN <<C14(w)>> ELSE <<>>)
 Failing(w) == SelectSeq(Verdicts(w), LAMBDA v : v[1] # "ok")
 
 TInit == tid \in 1..Len(Traces) /\ l = 1 /\ verdict = <<>>
